@@ -355,7 +355,8 @@ pub proof fn lemma_claims_set(s: Raw, a: Seq<char>, c: Seq<Claim>)
     stake: Option<Uint128>
 @closure 1 C10.unbond_stake_closure
     (res: StdResult<Uint128>)
-    ensures res is Ok ==> stake.unwrap_or(Uint128(0)).0 >= amount.0 && res->Ok_0.0 == stake.unwrap_or(Uint128(0)).0 - amount.0
+    ensures res is Ok ==> stake.unwrap_or(Uint128(0)).0 >= amount.0 && res->Ok_0.0 == stake.unwrap_or(Uint128(0)).0 - amount.0,
+        stake.unwrap_or(Uint128(0)).0 >= amount.0 ==> res is Ok
 @prefix
     broadcast use cw4_axioms;
     let ghost s0 = old(deps.storage).view();
@@ -381,6 +382,9 @@ pub proof fn lemma_claims_set(s: Raw, a: Seq<char>, c: Seq<Claim>)
         matured_total(claims_of(old(deps.storage).view(), "claims"@, info.sender@), &env.block))
 @ensures C09.claim_inv C06
     r is Ok ==> inv(final(deps.storage).view())
+@ensures C10.claim_goes_through_when_matured
+    claims_readable(old(deps.storage).view(), "claims"@, info.sender@)
+        && matured_total(claims_of(old(deps.storage).view(), "claims"@, info.sender@), &env.block) > 0 ==> r is Ok
 @prefix
     broadcast use cw4_axioms, string_conv, msg_conv, opt_conv;
     let ghost s0 = old(deps.storage).view();
